@@ -9,6 +9,7 @@
 From Coq Require Import List NArith Bool String.
 From Coq Require Import Strings.Byte.
 From Falco Require Import Base.Res Base.Bytes Base.Utf8 Model.Escape Proofs.EscapeProofs Proofs.EscapeExamples.
+From Falco Require Proofs.C20Lex Proofs.C20Table Proofs.C20Acl Proofs.C20Backend Model.ParseLit Model.LexParse Model.ParseBase Model.Ast.
 Import ListNotations.
 Local Open Scope string_scope.
 
@@ -38,6 +39,62 @@ Proof. exact table_roundtrip. Qed.
 Theorem C20_acl_comment_one_line : forall c, ~ In c_lf (clean_comment c) /\ ~ In c_cr (clean_comment c).
 Proof. exact acl_comment_one_line. Qed.
 
+(* ---- END TO END over the real lexer (Model/Lex.v), the peek pump (Model/Pump.v) and the real
+   parser (Model/Parse*.v), through the bridge Model/LexParse.v.  None of the statements below
+   mentions the small template grammar of Model/Escape.v.
+
+   A dictionary of ANY number of items (zero included) whose keys and values are arbitrary
+   NUL-free well-formed UTF-8 text - double quotes, percent signs, CR and LF included - rendered
+   under a name that the lexer reads as one identifier, is accepted by parse_source in VCL mode,
+   and the program it returns is exactly ONE table declaration whose decoded string values are
+   the original (key, value) pairs in order and whose name is the given name.  fok is the
+   parser's function-name oracle and is arbitrary. *)
+Theorem C20_table_parses_real :
+  forall (fok : bytes -> bool) (name : bytes) (items : list (bytes * bytes)),
+    C20Table.ident_name name ->
+    Forall (fun kv => text_ok (fst kv) /\ text_ok (snd kv)) items ->
+    exists v, LexParse.parse_source fok LexParse.MVcl (render_dict name items) = ParseBase.POK v /\
+              C20Table.items_of v = items /\ C20Table.table_name_of v = name /\
+              Ast.vstmts v = [C20Table.dict_decl name items].
+Proof. exact C20Table.table_parses_real. Qed.
+
+(* An ACL of ANY number of entries: every entry keeps its negation, its address (any ASCII string without double quote or NUL:
+   IPv4 and IPv6 spellings alike) and its mask (any number below
+   2^63); an entry comment of arbitrary NUL-free UTF-8 text - line breaks included - is lexed as
+   ONE comment token and contributes nothing to the parsed program. *)
+Theorem C20_acl_roundtrip :
+  forall (fok : bytes -> bool) (name : bytes) (es : list acl_entry),
+    C20Table.ident_name name -> Forall C20Acl.entry_ok es ->
+    exists v, LexParse.parse_source fok LexParse.MVcl (render_acl name es) = ParseBase.POK v /\
+              C20Acl.entries_of v = map C20Acl.entry_view es /\ C20Acl.acl_name_of v = name.
+Proof. exact C20Acl.acl_parses_real. Qed.
+
+(* A backend of ANY name (the template writes F_ and the name with every non-word rune replaced
+   by an underscore; no hypothesis on the name) and any address text: the parsed program is one
+   backend declaration of exactly that name whose only property is .host with the decoded
+   address (no property when the resource has no address). *)
+Theorem C20_backend_roundtrip :
+  forall (fok : bytes -> bool) (name : bytes) (addr : option bytes),
+    match addr with Some a => text_ok a | None => True end ->
+    exists v, LexParse.parse_source fok LexParse.MVcl (render_backend name addr) = ParseBase.POK v /\
+              C20Backend.backend_of v =
+                (x46 :: x5f :: sanitize name, match addr with Some a => [(C20Backend.b_host, a)] | None => [] end).
+Proof. exact C20Backend.backend_parses_real. Qed.
+
+(* A director whose sanitised name the lexer reads as one identifier (it starts with a letter or
+   underscore and is no keyword), of type random / hash / client / shield, with ANY list of
+   member names: the parsed program is one director declaration with that name and type, .retries
+   only for a random director with a non-zero count, .quorum as a percentage, and one
+   { .backend = F_<sanitised member>; .weight = 1; } object per member, in order - so every member
+   is spelled exactly as C20_backend_roundtrip declares the backend of that name. *)
+Theorem C20_director_roundtrip :
+  forall (fok : bytes -> bool) (name : bytes) (ty retries quorum : N) (members : list bytes),
+    C20Table.ident_name (sanitize name) -> C20Backend.type_ok ty ->
+    (retries < ParseLit.two63)%N -> (quorum < ParseLit.two63)%N ->
+    exists v, LexParse.parse_source fok LexParse.MVcl (render_director name ty retries quorum members) = ParseBase.POK v /\
+              C20Backend.director_of v = C20Backend.director_view name ty retries quorum members.
+Proof. exact C20Backend.director_parses_real. Qed.
+
 (* the templates before repository commit 011f4ea (values interpolated as they are) *)
 Theorem C20_unquoted_refuted_percent :
   exists name items, parse_table (render_dict_raw name items) <> OK items /\
@@ -61,6 +118,10 @@ Print Assumptions C20_decode_escape.
 Print Assumptions C20_quote_no_dquote.
 Print Assumptions C20_lex_string_escape.
 Print Assumptions C20_table_roundtrip.
+Print Assumptions C20_table_parses_real.
+Print Assumptions C20_acl_roundtrip.
+Print Assumptions C20_backend_roundtrip.
+Print Assumptions C20_director_roundtrip.
 Print Assumptions C20_acl_comment_one_line.
 Print Assumptions C20_unquoted_refuted_percent.
 Print Assumptions C20_unquoted_refuted_dquote.
